@@ -95,7 +95,7 @@ def run(ctx):
             ctx.violation("C18:level:wrong-unit", f"{exp['desc']}: level unit {result.unit}", exp["case"])
         if abs(got - want) > tol:
             exp["result"] = "bad"
-            ctx.violation("C18:level:wrong-magnitude", f"{exp['desc']}: level {result.magnitude!r}, definition gives {float(want)!r}", exp["case"])
+            ctx.violation("C18:level:wrong-magnitude", f"{exp['desc']}: level {result.magnitude!r}, definition gives {core.sf(want)!r}", exp["case"])
 
     def post_quantify(a, kw, result, exc):
         exp = state["expect"]
@@ -110,7 +110,7 @@ def run(ctx):
         want = exp["want"]
         got = D(result.magnitude) * D(oracle.prefix_value(result.unit.prefix))
         if abs(got - want) > abs(want) * Decimal("1e-9"):
-            ctx.violation("C18:quantify:wrong-magnitude", f"{exp['desc']}: {result!r}, definition gives {float(want)!r} (unprefixed reference units)", exp["case"])
+            ctx.violation("C18:quantify:wrong-magnitude", f"{exp['desc']}: {result!r}, definition gives {core.sf(want)!r} (unprefixed reference units)", exp["case"])
         if result.unit.dimension is not exp["dimension"]:
             ctx.violation("C18:quantify:wrong-dimension", f"{exp['desc']}: {result!r}", exp["case"])
 
@@ -131,9 +131,9 @@ def run(ctx):
             continue
         # level magnitude x in [-200, 200], restricted so that base**(x*prefix/k) stays well inside float range
         span = min(Decimal(200), Decimal(250) * Decimal(k) / (D(prefix) * (base.ln() / Decimal(10).ln())))
-        x = rng.choice([0, 1, -1, 3, 10, -20, 0.5]) if rng.random() < 0.3 else rng.uniform(-float(span), float(span))
+        x = rng.choice([0, 1, -1, 3, 10, -20, 0.5]) if rng.random() < 0.3 else rng.uniform(-core.sf(span), core.sf(span))
         if abs(x) > span:
-            x = float(span) * (1 if x > 0 else -1) * rng.random()
+            x = core.sf(span) * (1 if x > 0 else -1) * rng.random()
         bucket = "0" if x == 0 else ("-" if x < 0 else "+") + ("small" if abs(x) < 1 else "mid" if abs(x) < 30 else "large")
         ratio = (D(x) * D(prefix) / Decimal(k) * base.ln()).exp()            # q/ref
         ref_lo, ref_hi, _ = orc.si_value(ref.magnitude, ref.unit)
@@ -143,7 +143,7 @@ def run(ctx):
             continue
         r = orc.ratio(ref.unit, qu)
         rmid = D((r[0] + r[1]) / 2)
-        qmag = float(D(ref.magnitude) * ratio * rmid)
+        qmag = core.sf(D(ref.magnitude) * ratio * rmid)
         if not (1e-250 < qmag < 1e250):
             continue
         q = Q(qmag, qu)
@@ -192,7 +192,7 @@ def run(ctx):
         # a level compares equal (within rounding) to the quantity it denotes, both orders
         try:
             ctx.count("equality/level-vs-quantity")
-            ap = m.approximately(q, 1e-6 + float(conv_rel) * 2)
+            ap = m.approximately(q, 1e-6 + core.sf(conv_rel) * 2)
             e1, e2 = (lv == ap), (ap == lv)
             if not (e1 and e2):
                 ctx.violation("C18:level-not-equal-to-its-quantity", f"{lv!r} == approximately({q!r}) is {e1}, reverse {e2}", case)
@@ -212,7 +212,7 @@ def run(ctx):
             except Exception:
                 pass
         if i % 500 == 7:
-            ctx.sample({"family": fname, "reference": rname, "quantity": str(q), "level": lv.magnitude, "definition": float(want)})
+            ctx.sample({"family": fname, "reference": rname, "quantity": str(q), "level": lv.magnitude, "definition": core.sf(want)})
     ctx.require("postconditions/level", 200)
     ctx.require("postconditions/quantify", 200)
     ctx.require("monotone_chains", 50)
